@@ -189,6 +189,7 @@ func runConnCase(c connCase) string {
 		r := runs[ci]
 		switch op[0] {
 		case 'f':
+			r.log.add(fmt.Sprintf("I:%d", atomic.AddInt64(&lclock, 1))) // logical time of the invocation
 			r.pc.feed(unhx(op[1:]))
 			if !waitQuiet(r) {
 				r.log.add("!HANG")
@@ -223,10 +224,15 @@ func runConnCase(c connCase) string {
 			per[ci] = append(per[ci], st[1])
 		}
 		var wg sync.WaitGroup
+		gate := make(chan struct{}) // all players start together
 		for ci := range per {
+			if len(per[ci]) > 0 {
+				start(ci)
+			}
 			wg.Add(1)
 			go func(ci int) {
 				defer wg.Done()
+				<-gate
 				for _, op := range per[ci] {
 					if atomic.LoadInt32(&hangFlag) != 0 {
 						return
@@ -235,6 +241,7 @@ func runConnCase(c connCase) string {
 				}
 			}(ci)
 		}
+		close(gate)
 		wg.Wait()
 	} else {
 		for _, st := range c.steps {
